@@ -89,6 +89,8 @@ macro_rules! numtype {
                 on_bound = format!("{}", b + d);
                 Token::DecimalNumericProgramData(on_bound.as_bytes())
             }
+            // keyword words carried by another element type are not keywords
+            7 if rng.chance(1, 2) => *rng.pick(&[Token::StringProgramData(b"MAX"), Token::StringProgramData(b"minimum"), Token::StringProgramData(b"DEFault"), Token::StringProgramData(b"UP"), Token::StringProgramData(b"down"), Token::ArbitraryBlockData(b"MAX"), Token::ArbitraryBlockData(b"DEF"), Token::ExpressionProgramData(b"MIN"), Token::ExpressionProgramData(b"UP"), Token::DecimalNumericSuffixProgramData(b"1", b"MAX")]),
             _ => *rng.pick(&[Token::StringProgramData(b"1"), Token::ArbitraryBlockData(b"1"), Token::ExpressionProgramData(b"1"), Token::NonDecimalNumericProgramData(5), Token::DecimalNumericSuffixProgramData(b"1", b"S"), Token::DecimalNumericSuffixProgramData(b"2", b"KHZ")]),
         };
         let direct: Result<$t, Error> = <$t>::try_from(tok);
